@@ -282,18 +282,23 @@ def compare_sim(t, impl, mres):
 def run_simcorr(n, seed, tier, stats, dist, distinct, samples, prop="C15"):
     rng = random.Random("%s-simcorr-%d" % (prop, seed))
     cases, texts, impls = [], [], []
-    skipped = 0
+    skipped = 0; raised = []
     for i in range(n):
         t = gen_simcase(rng, tier)
         impl, split, tape, err = run_sim_impl(t)
         if impl is None:
             skipped += 1
             dist["simcorr_simulator_raised"] = dist.get("simcorr_simulator_raised", 0) + 1
+            # the model has no rejection for a generated simulation: a run() that raises on data the public API handles is a disagreement
+            if REL.api_replay_completes(t):
+                raised.append({"why": ["the Simulator raised %s where the model completes and fit + predict through the public API complete" % err[:200]],
+                               "simulation": {k: v for k, v in t.items() if not k.startswith("_")}, "theorem_pinning_the_model_value": "coq/props/%s.v" % prop})
             continue
         cases.append(t); impls.append(impl)
         texts.append(("s%d" % len(texts), simcase_text("s%d" % len(texts), t, split, tape)))
     res = mwh.run_model(texts, os.path.join(mwh.ROOT, "build", "work_%s_sim_%s" % (prop, tier)), shard=60)
-    bad = []
+    bad = list(raised)
+    stats["corr_cases"] += len(raised); stats["corr_disagree"] += len(raised)
     if res.get("__driver__") and res["__driver__"]["E"]:
         bad.append({"why": res["__driver__"]["E"], "case": None})
     for i, (t, impl) in enumerate(zip(cases, impls)):
